@@ -50,17 +50,33 @@ Definition get (c : case) (i : nat) : bytes :=
   | (_, k, _) => nth k (c_extra c) []
   end.
 
+(* byte-string equality for table lookups (N.eqb; same relation as Dump.bytes_eqb) *)
+Fixpoint beqb (a b : bytes) : bool :=
+  match a, b with
+  | [], [] => true
+  | x :: a', y :: b' => N.eqb x y && beqb a' b'
+  | _, _ => false
+  end.
+
+(* all byte strings of a case, cut out of the dump / stream once (they can be a megabyte long) *)
+Definition strings (c : case) : list bytes := map (get c) (seq 0 (length (c_tbl c))).
+Definition str (t : list bytes) (i : nat) : bytes := nth i t [].
+
+(* oracle table with the byte strings looked up: (body, Unmarshal class, Put class) *)
+Definition oracle (c : case) (t : list bytes) : list (bytes * nat * nat) :=
+  map (fun e => let '(i, u, s) := e in (str t i, u, s)) (c_oracle c).
+
 (* a body that is not in the oracle table is "rejected with class 98": the comparison
    then fails and the case is looked at *)
-Definition unm_of (c : case) (d : bytes) : option nat :=
-  match find (fun e => let '(i, _, _) := e in bytes_eqb d (get c i)) (c_oracle c) with
+Definition unm_of (o : list (bytes * nat * nat)) (d : bytes) : option nat :=
+  match find (fun e => let '(b, _, _) := e in beqb d b) o with
   | Some (_, 0, _) => None
   | Some (_, u, _) => Some u
   | None => Some 98
   end.
 
-Definition sink_of (c : case) (d : bytes) : sres :=
-  match find (fun e => let '(i, _, _) := e in bytes_eqb d (get c i)) (c_oracle c) with
+Definition sink_of (o : list (bytes * nat * nat)) (d : bytes) : sres :=
+  match find (fun e => let '(b, _, _) := e in beqb d b) o with
   | Some (_, _, 0) => Stored
   | Some (_, _, 1) => Ignored
   | Some (_, _, S (S k)) => Failed k
@@ -71,33 +87,39 @@ Definition err_code (e : rerr) : nat :=
   match e with ENone => 0 | EMagic => 1 | EEof => 2 | EUnexpected => 3 | EOther c => c | EFuel => 99 end.
 
 Definition set_eq (a b : list bytes) : bool :=
-  forallb (fun x => existsb (bytes_eqb x) b) a && forallb (fun x => existsb (bytes_eqb x) a) b.
+  forallb (fun x => existsb (beqb x) b) a && forallb (fun x => existsb (beqb x) a) b.
 
-Definition res_eq (r : result) (c : case) : bool :=
+Definition res_eq (r : result) (c : case) (t : list bytes) : bool :=
   Nat.eqb (count r) (c_count c) && Nat.eqb (failc r) (c_fail c)
   && Nat.eqb (err_code (err r)) (c_err c)
-  && set_eq (delivered r) (map (get c) (c_stored c)).
+  && set_eq (delivered r) (map (str t) (c_stored c)).
 
 (* Shard.Dump wrote magic ++ records of exactly the listed byte strings (that these are
    byte-for-byte the objects put into the source shard is compared by the driver) *)
-Definition dump_ok (c : case) : bool :=
-  bytes_eqb (dump (map (get c) (c_dumprecs c))) (c_dump c)
+Definition dump_ok_t (c : case) (t : list bytes) : bool :=
+  beqb (dump (map (str t) (c_dumprecs c))) (c_dump c)
   && Nat.eqb (length (c_dumprecs c)) (c_dump_count c).
 
 (* implementation = model *)
-Definition model_ok (c : case) : bool :=
-  res_eq (restore (unm_of c) (sink_of c) (c_ign c) (chunk (c_sizes c) (stream_of c))) c.
+Definition model_ok_t (c : case) (t : list bytes) : bool :=
+  let o := oracle c t in
+  res_eq (restore (unm_of o) (sink_of o) (c_ign c) (chunk (c_sizes c) (stream_of c))) c t.
 
 (* implementation = right-hand sides of the theorems (no reader, no chunking) *)
-Definition ref_ok (c : case) : bool :=
+Definition ref_ok_t (c : case) (t : list bytes) : bool :=
+  let o := oracle c t in
   match c_kind c with
-  | 0 => res_eq (mkRes (map (get c) (c_dumprecs c)) (length (c_dumprecs c)) 0 ENone) c
-  | 1 => bytes_eqb (dump (map (get c) (c_recs c))) (stream_of c)
-         && res_eq (ref_restore (unm_of c) (sink_of c) (c_ign c) (map (get c) (c_recs c)) [] 0 0) c
-  | 2 => negb (bytes_eqb (firstn (length dump_magic) (stream_of c)) dump_magic)
-         && res_eq (mkRes [] 0 0 EMagic) c
+  | 0 => res_eq (mkRes (map (str t) (c_dumprecs c)) (length (c_dumprecs c)) 0 ENone) c t
+  | 1 => beqb (dump (map (str t) (c_recs c))) (stream_of c)
+         && res_eq (ref_restore (unm_of o) (sink_of o) (c_ign c) (map (str t) (c_recs c)) [] 0 0) c t
+  | 2 => negb (beqb (firstn (length dump_magic) (stream_of c)) dump_magic)
+         && res_eq (mkRes [] 0 0 EMagic) c t
   | _ => true
   end.
+
+Definition dump_ok (c : case) : bool := dump_ok_t c (strings c).
+Definition model_ok (c : case) : bool := model_ok_t c (strings c).
+Definition ref_ok (c : case) : bool := ref_ok_t c (strings c).
 
 Fixpoint mism_from (i : nat) (f : case -> bool) (cs : list case) : list nat :=
   match cs with
@@ -107,3 +129,17 @@ Fixpoint mism_from (i : nat) (f : case -> bool) (cs : list case) : list nat :=
 Definition dump_mismatches := mism_from 0 dump_ok.
 Definition model_mismatches := mism_from 0 model_ok.
 Definition ref_mismatches := mism_from 0 ref_ok.
+
+(* the three comparisons in one pass (the byte strings of a case are cut out once):
+   3*i = dump, 3*i+1 = model, 3*i+2 = reference mismatch of case i *)
+Fixpoint all_from (i : nat) (cs : list case) : list nat :=
+  match cs with
+  | [] => []
+  | c :: r =>
+    let t := strings c in
+    (if dump_ok_t c t then [] else [3 * i])
+    ++ (if model_ok_t c t then [] else [3 * i + 1])
+    ++ (if ref_ok_t c t then [] else [3 * i + 2])
+    ++ all_from (S i) r
+  end.
+Definition all_mismatches := all_from 0.
